@@ -1,5 +1,6 @@
 #!/bin/bash
-# build.sh <scratchdir>: instrument the current /repo tree and build the simulation binary.
+# build.sh <scratchdir> [race]: instrument the current /repo tree and build the simulation binary
+# (with "race": additionally vsim-race.test, the same program built with the race detector).
 # Prints the path of the binary. Exit 2 on any tooling trouble.
 set -u
 S="$1"
@@ -12,4 +13,7 @@ mkdir -p "$S/nexus/simrt" "$S/nexus/vsim"
 cp $V/simrt/*.go "$S/nexus/simrt/" && cp $V/vsim/*.go "$S/nexus/vsim/" || exit 2
 ( cd "$S/nexus" && "$S/simgen" -dir . -tags verif -report "$S/simgen_report.json" ./wamp/... ./transport/... ./router/... ./client/... ./stdlog/... ./vsim/... ) >>"$S/build.log" 2>&1 || { cat "$S/build.log" >&2; exit 2; }
 ( cd "$S/nexus" && go test -c -tags verif -vet=off -o "$S/vsim.test" ./vsim ) >>"$S/build.log" 2>&1 || { cat "$S/build.log" >&2; exit 2; }
+if [ "${2:-}" = race ]; then
+  ( cd "$S/nexus" && CGO_ENABLED=1 go test -c -race -tags verif -vet=off -o "$S/vsim-race.test" ./vsim ) >>"$S/build.log" 2>&1 || { cat "$S/build.log" >&2; exit 2; }
+fi
 echo "$S/vsim.test"
